@@ -45,6 +45,15 @@ var Groups = map[string][]string{
 		`{"properties":{"a":{}},"patternProperties":{"b$":{"type":"string"}},"additionalProperties":{"type":"null"}}`,
 		`{"additionalProperties":false}`, `{"properties":{"a":{"properties":{"b":{"type":"integer"}},"additionalProperties":false}}}`,
 		`{"properties":{"é":{"type":"string"}},"additionalProperties":{"type":"integer"}}`,
+		`{"properties":{"a":{"type":"integer"}},"patternProperties":{"^a":{"maximum":3}},"additionalProperties":false}`,
+		`{"properties":{"a":{},"ab":{"type":"integer"}},"patternProperties":{"b$":{"minimum":2}},"additionalProperties":false}`,
+	},
+	"format": {
+		`{"type":"string","format":"date"}`, `{"type":["string","null"],"format":"email"}`, `{"type":"string","format":"unknownfmt"}`,
+		`{"items":{"type":"string","format":"date"}}`, `{"properties":{"b":{"type":"string","format":"date"}}}`, `{"additionalProperties":{"type":"string","format":"date"}}`,
+		`{"patternProperties":{"^b":{"type":"string","format":"date"}}}`, `{"allOf":[{"type":"string","format":"date"}]}`, `{"anyOf":[{"type":"string","format":"date"},{"type":"integer"}]}`,
+		`{"not":{"type":"string","format":"date"}}`, `{"dependencies":{"a":{"properties":{"b":{"type":"string","format":"date"}}}}}`,
+		`{"dependencies":{"a":{"type":"object","additionalProperties":{"type":"string","format":"email"}}}}`, `{"items":[{"type":"string","format":"date"}],"additionalItems":{"type":"string","format":"email"}}`,
 	},
 	"objsize": {
 		`{"required":["a"]}`, `{"required":["a","b"]}`, `{"minProperties":1}`, `{"maxProperties":1}`, `{"minProperties":2,"maxProperties":2}`,
@@ -121,5 +130,6 @@ var PairwiseInstances = []string{
 	`[]`, `[1]`, `[1,2]`, `[1,2,3]`, `[1,2,"x"]`, `[1,"a"]`, `["a","b"]`, `[1,1]`, `[1,1.0]`, `[[1],[1]]`, `[{"a":1},{"a":1.0}]`, `[null]`, `[0,false]`,
 	`[1,2,3,4]`, `[3,3,3,-1]`, `[[1,2],[3,"x"]]`, `[1,2,0,1]`,
 	`{}`, `{"a":1}`, `{"a":"x"}`, `{"b":1}`, `{"a":1,"b":"s"}`, `{"a":1,"b":2}`, `{"a":4}`, `{"ab":1}`, `{"xa":true}`, `{"xa":1}`, `{"c":null}`,
+	`"2020-01-01"`, `"nope"`, `"a@b.co"`, `["2020-01-01"]`, `["nope"]`, `["2020-01-01","nope"]`, `{"b":"2020-01-01"}`, `{"b":"nope"}`, `{"a":1,"b":"nope"}`, `{"a":1,"b":"2020-01-01"}`, `{"a":"x","b":"a@b.co"}`,
 	`{"a":{"b":1}}`, `{"a":{"b":"x"}}`, `{"a":{"b":1,"c":2}}`, `{"é":"s"}`, `{"é":1,"a":2}`, `{"a":null}`, `{"a":[1,{"b":null}]}`, `{"b":"s","c":null}`,
 }
